@@ -81,14 +81,29 @@ def decodeOp (st : St) (b : Bytes) : String :=
   let r := stream (Cfg.cur st.es) b
   s!"items={r.packets.length} end={endStr r.end} rest={restLen b r}"
 
+/-- the data command a request finally runs (the forwarded one for `UMFORWARD n …`) -/
+def effectiveDataType (cmd : Option Cmd) : String :=
+  match cmd with
+  | some c =>
+    if cmdTypeOf cmd = "UmForward" then
+      match handleUmforward c with
+      | .inr (_, inner) => dataCmdTypeOf (some inner)
+      | .inl _ => dataCmdTypeOf cmd
+    else dataCmdTypeOf cmd
+  | none => dataCmdTypeOf cmd
+
 /-- does this request stall its connection for more than the harness' 5 s? -/
 def stalls (st : St) (h : HCfg) (pkt : Idx × Bytes) : Bool :=
-  match handleCmd h (cmdOf pkt.2 pkt.1) with
+  let cmd := cmdOf pkt.2 pkt.1
+  match handleCmd h cmd with
   | none => false
   | some r =>
     match r.out with
     | .wedge => true
-    | .poll _ t => st.phase != "pre" && (t == 0 || t > 3)   -- the fake backend answers nil: polled until the timeout
+    | .poll _ t =>
+      -- the fake backend answers a nil bulk string to everything: `is_empty_resp` takes that as "no element yet"
+      -- for the list pops only (the sorted-set pops wait for an empty array), so those are polled until the timeout
+      st.phase != "pre" && (t == 0 || t > 3) && effectiveDataType cmd ∈ ["Blpop", "Brpop", "Brpoplpush"]
     | _ => decide (r.steps > st.spin)
 
 def slowPanics (h : HCfg) (pkt : Idx × Bytes) : Bool :=
